@@ -317,9 +317,10 @@ def main() -> None:
         ],
         "checks": checks,
         "not_applicable": na,
-        "notes": "Exit codes: 0 = property held on everything explored (conditions that did not exhaust are listed as "
-        "INCONCLUSIVE on stderr and in the evidence); 1 = reproducing violation (VIOLATION line); 3 = harness/engine "
-        "error. Properties listed under not_applicable with 'pending' are not yet claimed.",
+        "notes": "Exit codes: 0 = property held on everything explored (conditions that did not exhaust within their budget "
+        "are listed as INCONCLUSIVE on stderr and under coverage.not_exhausted in the evidence - a budget that ran out is "
+        "never reported as a pass of that condition and never as an alarm); 1 = reproducing violation (VIOLATION line); "
+        "3 = deterministic harness/engine error (vacuous condition, failing witness, exception in the harness).",
     }
     with open("/verif/MANIFEST.json", "w") as f:
         json.dump(m, f, indent=1)
